@@ -2030,12 +2030,16 @@ func buildRequestBodyType(body, att *expr.AttributeExpr, e *expr.HTTPEndpointExp
 			// different collection types may produce the same identifier
 			// (e.g. map[string]*T and map[string][]*T) and the same body
 			// type may be built from different payload types (Body("attr")).
-			// Endpoints with the same payload and body types share a
-			// constructor, other endpoints must not.
+			// Endpoints with the same payload and body types (and the same
+			// origin attribute) share a constructor, other endpoints must not.
 			if sd.clientBodyInits == nil {
 				sd.clientBodyInits = make(map[string]string)
 			}
 			sig := svc.Scope.GoFullTypeRef(att, pkg) + " -> " + ref
+			if o, ok := body.Meta["origin:attribute"]; ok {
+				// Body("name"): the constructor reads that payload attribute
+				sig += " from " + o[0]
+			}
 			for i, base := 2, name; ; i++ {
 				s, ok := sd.clientBodyInits[name]
 				if !ok || s == sig {
